@@ -89,32 +89,38 @@ Proof. exact ranges_scalar_ok. Qed.
 Print Assumptions C12_ranges_scalar.
 
 (* --- agreement with the ECMAScript grammar on the fragment ---
-   in_fragment s: every unit of s is a pattern character other than `<` `=` `!`, or one of  . | ( ) ? * +
-   Pattern u: the inductive grammar of Regex/Grammar.v (ES2022 22.2.1 + Annex B behind the u switch, fragment:
-   Disjunction, Alternative, Term, Quantifier * + ? with lazy suffix, Atom = PatternCharacter | . | ( ) | (?: ) ).
+   in_fragment l (Regex/FragParser.v): every unit of l is a pattern character or one of  . | ( ) ? * + ^ $ , and
+   every `(?<` is followed by `=` or `!` (look-behind; named groups are outside the fragment).
+   Pattern u (Regex/Grammar.v): the ES2022 grammar (22.2.1 + Annex B behind the u switch) of the fragment
+   Disjunction, Alternative, Term (incl. Annex B QuantifiableAssertion Quantifier), Assertion ^ $ (?= (?! (?<= (?<!,
+   Quantifier * + ? with lazy suffix, Atom = PatternCharacter | . | ( ) | (?: ).
+   The units are the ones the validator reads (code points with u, UTF-16 code units without).
    From any validator state, in both modes: the model accepts exactly the Patterns. *)
-Theorem C12_fragment_equiv : forall st s u, in_fragment s = true ->
+Theorem C12_fragment_equiv : forall st s u, in_fragment (visible_units s u) = true ->
   (verdict_of (validate_pattern st s u) = VOk <-> Pattern u (visible_units s u)).
 Proof. exact fragment_equiv. Qed.
 Print Assumptions C12_fragment_equiv.
 
-Theorem C12_fragment_reject : forall st s u, in_fragment s = true -> ~ Pattern u (visible_units s u) ->
+Theorem C12_fragment_reject : forall st s u, in_fragment (visible_units s u) = true -> ~ Pattern u (visible_units s u) ->
   exists m, verdict_of (validate_pattern st s u) = VErr m.
 Proof. exact fragment_reject. Qed.
 Print Assumptions C12_fragment_reject.
 
-(* the executable recogniser that is cross-validated against V8 decides the grammar on the fragment *)
-Theorem C12_recogniser_decides_grammar : forall u l, in_fragment l = true -> (recognises l = true <-> Pattern u l).
+(* the executable recogniser that is cross-validated against V8 decides the grammar on the fragment alphabet *)
+Theorem C12_recogniser_decides_grammar : forall u l, chars_ok l = true -> (recognises u l = true <-> Pattern u l).
 Proof. exact recognises_iff_Pattern. Qed.
 Print Assumptions C12_recogniser_decides_grammar.
 
-(* non-vacuity: a nested pattern with alternation and quantifiers (16 units: open a bar b star close plus opt c
-   open opt colon d bar close opt) is a Pattern and is accepted; `a` star star and a lone open paren are neither *)
+(* non-vacuity.  ex_valid = the 28 units of  ^ ( a | b STAR ) PLUS ? (?<= c ) (?! d ) (?: e | ) ? $  : a Pattern, accepted, in both modes;
+   ex_annexb = (?= a ) STAR b : a Pattern without u only (Annex B QuantifiableAssertion), accepted without u only;
+   a STAR STAR, a lone open paren, ^ STAR and a quantified look-behind: neither Patterns nor accepted, in both modes *)
 Example C12_fragment_example_valid : forall st u,
-  Pattern u [40;97;124;98;42;41;43;63;99;40;63;58;100;124;41;63] /\
-  verdict_of (validate_pattern st [40;97;124;98;42;41;43;63;99;40;63;58;100;124;41;63] u) = VOk.
-Proof. intros st u. split; [exact (ex_valid_is_pattern u) | exact (ex_valid_accepted st u)]. Qed.
-Example C12_fragment_example_invalid : forall st u,
-  (~ Pattern u [97;42;42] /\ verdict_of (validate_pattern st [97;42;42] u) <> VOk) /\
-  (~ Pattern u [40] /\ verdict_of (validate_pattern st [40] u) <> VOk).
-Proof. intros st u. split; [exact (ex_invalid_star st u) | exact (ex_invalid_paren st u)]. Qed.
+  in_fragment ex_valid = true /\ Pattern u ex_valid /\ verdict_of (validate_pattern st ex_valid u) = VOk.
+Proof. intros st u. split; [exact ex_valid_ok|split; [exact (ex_valid_pattern u) | exact (ex_valid_accepted st u)]]. Qed.
+Example C12_fragment_example_annexb : forall st,
+  (Pattern false ex_annexb /\ ~ Pattern true ex_annexb) /\
+  (verdict_of (validate_pattern st ex_annexb false) = VOk /\ verdict_of (validate_pattern st ex_annexb true) <> VOk).
+Proof. intros st. split; [exact ex_annexb_modes | exact (ex_annexb_validator st)]. Qed.
+Example C12_fragment_example_invalid : forall st u l, In l [[97;42;42]; [40]; [94;42]; [40;63;60;61;97;41;42]] ->
+  ~ Pattern u (visible_units l u) /\ verdict_of (validate_pattern st l u) <> VOk.
+Proof. exact ex_invalid. Qed.
